@@ -334,17 +334,19 @@ class PlotData:
                         timescales = list(set([np.nan if isna(output_timescales[x]) else output_timescales[x] for x in labels]))  # Ensure that None and nan don't appear as different timescales
 
                         # Set default aggregation method depending on the units of the quantity
-                        if output_aggregation is None:
+                        # The default is chosen per output (it must not carry over to other outputs, populations or results in the same call)
+                        this_output_aggregation = output_aggregation
+                        if this_output_aggregation is None:
                             if units[0] in ["", FS.QUANTITY_TYPE_FRACTION, FS.QUANTITY_TYPE_PROPORTION, FS.QUANTITY_TYPE_PROBABILITY, FS.QUANTITY_TYPE_RATE]:
-                                output_aggregation = "average"
+                                this_output_aggregation = "average"
                             else:
-                                output_aggregation = "sum"
+                                this_output_aggregation = "sum"
 
                         if len(units) > 1:
                             logger.warning("Aggregation for output '%s' is mixing units, this is almost certainly not desired.", output_name)
                             aggregated_units[output_name] = "unknown"
                         else:
-                            if units[0] in ["", FS.QUANTITY_TYPE_FRACTION, FS.QUANTITY_TYPE_PROPORTION, FS.QUANTITY_TYPE_PROBABILITY, FS.QUANTITY_TYPE_RATE] and output_aggregation == "sum" and len(labels) > 1:  # Dimensionless, like prevalance
+                            if units[0] in ["", FS.QUANTITY_TYPE_FRACTION, FS.QUANTITY_TYPE_PROPORTION, FS.QUANTITY_TYPE_PROBABILITY, FS.QUANTITY_TYPE_RATE] and this_output_aggregation == "sum" and len(labels) > 1:  # Dimensionless, like prevalance
                                 logger.warning("Output '%s' is not in number units, so output aggregation probably should not be 'sum'.", output_name)
                             aggregated_units[output_name] = output_units[labels[0]]
 
@@ -354,12 +356,12 @@ class PlotData:
                         else:
                             aggregated_timescales[output_name] = output_timescales[labels[0]]
 
-                        if output_aggregation == "sum":
+                        if this_output_aggregation == "sum":
                             aggregated_outputs[pop_label][output_name] = sum(data_dict[x] for x in labels)  # Add together all the outputs
-                        elif output_aggregation == "average":
+                        elif this_output_aggregation == "average":
                             aggregated_outputs[pop_label][output_name] = sum(data_dict[x] for x in labels)  # Add together all the outputs
                             aggregated_outputs[pop_label][output_name] /= len(labels)
-                        elif output_aggregation == "weighted":
+                        elif this_output_aggregation == "weighted":
                             aggregated_outputs[pop_label][output_name] = sum(data_dict[x] * compsize[x] for x in labels)  # Add together all the outputs
                             aggregated_outputs[pop_label][output_name] /= sum([compsize[x] for x in labels])
                     else:
@@ -376,20 +378,22 @@ class PlotData:
                         pop_labels = pop[pop_name]
 
                         # Set population aggregation method depending on
-                        if pop_aggregation is None:
+                        # The default is chosen per output (it must not carry over to other outputs or populations in the same call)
+                        this_pop_aggregation = pop_aggregation
+                        if this_pop_aggregation is None:
                             if aggregated_units[output_name] in ["", FS.QUANTITY_TYPE_FRACTION, FS.QUANTITY_TYPE_PROPORTION, FS.QUANTITY_TYPE_PROBABILITY, FS.QUANTITY_TYPE_RATE]:
-                                pop_aggregation = "average"
+                                this_pop_aggregation = "average"
                             else:
-                                pop_aggregation = "sum"
+                                this_pop_aggregation = "sum"
 
-                        if pop_aggregation == "sum":
+                        if this_pop_aggregation == "sum":
                             if aggregated_units[output_name] in ["", FS.QUANTITY_TYPE_FRACTION, FS.QUANTITY_TYPE_PROPORTION, FS.QUANTITY_TYPE_PROBABILITY, FS.QUANTITY_TYPE_RATE] and len(pop_labels) > 1:
                                 logger.warning("Output '%s' is not in number units, so population aggregation probably should not be 'sum'", output_name)
                             vals = sum(aggregated_outputs[x][output_name] for x in pop_labels)  # Add together all the outputs
-                        elif pop_aggregation == "average":
+                        elif this_pop_aggregation == "average":
                             vals = sum(aggregated_outputs[x][output_name] for x in pop_labels)  # Add together all the outputs
                             vals /= len(pop_labels)
-                        elif pop_aggregation == "weighted":
+                        elif this_pop_aggregation == "weighted":
                             numerator = sum(aggregated_outputs[x][output_name] * popsize[x] for x in pop_labels)  # Add together all the outputs
                             denominator = sum([popsize[x] for x in pop_labels])
                             vals = np.divide(numerator, denominator, out=np.full(numerator.shape, np.nan, dtype=float), where=numerator != 0)
